@@ -102,7 +102,8 @@ func c16Oracle(c *h.Ctx, sc srvScenario, r srvResult, caseJSON any) {
 			case "waith":
 				sawWaith = true
 			case "shutdown":
-				sawShutdown = true
+				// in flight = a handler had been entered when Shutdown started
+				sawShutdown = sawWaith && r.Conns[i].Err == ""
 			case "release":
 				released = true
 			case "grace":
